@@ -377,7 +377,7 @@ fn modifiers(bases: &[Group], out: &mut Vec<Select>) {
             out.push(Select::simple(&[x.as_str(), "nb"], base.clone()));
             out.push(Select::simple(&["nb"], base.clone()));
         }
-        // dataset clauses
+        // dataset clauses (also applied to every pair of core elements, see `dataset_clauses`)
         for (from, named) in [
             (vec![G1], vec![]),
             (vec![G1, G2], vec![]),
@@ -469,6 +469,20 @@ fn modifiers(bases: &[Group], out: &mut Vec<Select>) {
     }
 }
 
+/// FROM / FROM NAMED replacement datasets on the given base groups (merged default graphs meet
+/// joins, unions, VALUES and sub-selects here, not only single patterns).
+fn dataset_clauses(bases: &[Group], out: &mut Vec<Select>) {
+    for base in bases {
+        let full = all_vars_select(base.clone());
+        for (from, named) in [(vec![G1, G2], vec![]), (vec![G2, G1, G2], vec![G1]), (vec![G1], vec![G2]), (vec![], vec![G1, G2])] {
+            let mut s = full.clone();
+            s.from = from.iter().map(|x| x.to_string()).collect();
+            s.from_named = named.iter().map(|x| x.to_string()).collect();
+            out.push(s);
+        }
+    }
+}
+
 #[derive(Clone, Copy, PartialEq, Eq, Debug)]
 pub enum Scope {
     /// C01 quick
@@ -530,6 +544,15 @@ pub fn queries(scope: Scope) -> Vec<Select> {
             };
             let mut m = Vec::new();
             modifiers(&mod_bases, &mut m);
+            // dataset clauses on every pair of core elements and on the VALUES decorations of singles
+            let mut dc_bases = sequences(&core, 2);
+            for e in core.iter().take(8) {
+                for val in values_menu() {
+                    dc_bases.push(Group(vec![val.clone(), e.clone()]));
+                    dc_bases.push(Group(vec![e.clone(), val.clone()]));
+                }
+            }
+            dataset_clauses(&dc_bases, &mut m);
             push_all(m, &mut out, &mut seen);
         }
     }
